@@ -25,6 +25,7 @@ import KafkaVerif.Model.CodecRecords
 import KafkaVerif.Lemmas.RecordScanExact
 import KafkaVerif.Lemmas.CodecAccount
 import KafkaVerif.Gen.RecordCfg
+import KafkaVerif.Lemmas.GrowthSource
 
 namespace KV.C20
 open KV KV.Wire KV.Codec
@@ -524,5 +525,25 @@ example : isError (readResponse { bounded := true } false brokersTy [0x7f,0xff,0
 example : isError (readResponse { bounded := true } false (.struct false [.bytes false false] [] []) [0x7f,0xff,0xff,0xff, 0,0,0,7, 0x7f,0,0,0, 1,2]) = true := by decide
 example : isError (readResponse { bounded := true } false brokersTy [0,0,0,8, 0,0,0,7, 0x7f,0xff,0xff,0xff]) = true := by decide
 example : isError (readResponse { bounded := true } false brokersTy [0xff,0xff,0xff,0xff, 0,0,0,7, 0,0,0,0]) = true := by decide
+
+/-! ### the growth loops themselves (were the Boolean facts G8 / G9 only) -/
+
+/-- **every allocation `decodeElems` makes follows the data**: while `k` elements of an array announced as `n` arrive, each
+buffer has at most `arrayChunk` slots (the first) or at most twice the elements that have arrived — whatever `n` claims.
+`arrayInit` / `arrayGrow` are the statements of the current decode.go, executed symbolically by the extractor. -/
+theorem array_allocations_follow_data (n k : Nat) :
+    ∀ c ∈ KV.Growth.allocs KV.GrowthSource.arrayPolicy n k, (c ≤ Gen.arrayChunk ∨ c ≤ 2 * k) ∧ c ≤ n :=
+  KV.Growth.allocs_follow_data _ _ KV.GrowthSource.arrayPolicy_ok n k
+
+/-- **every allocation `(*decoder).read` makes follows the data**: while `k` bytes of a string / bytes value announced as `n`
+arrive, each buffer has at most `readChunk` bytes or at most twice the bytes received -/
+theorem read_allocations_follow_data (n k : Nat) :
+    ∀ c ∈ KV.Growth.allocs KV.GrowthSource.readPolicy n k, (c ≤ Gen.readChunk ∨ c ≤ 2 * k) ∧ c ≤ n :=
+  KV.Growth.allocs_follow_data _ _ KV.GrowthSource.readPolicy_ok n k
+
+/-- the policy `m := 2 * n` clamped to n (the whole announced length as soon as the first chunk is full) is what the theorem
+excludes: 256 MiB for 65537 bytes received -/
+example : (KV.Growth.allocs ⟨Gen.readInit, fun _ n => if 2 * n > n then n else 2 * n⟩ (2 ^ 28) 65537) = [65536, 2 ^ 28] := by
+  decide
 
 end KV.C20
